@@ -144,8 +144,9 @@ def tlc(run, module, cfg_text, name=None, workers=1, timeout=900, heap="6g", ext
         run.states += dist
         run.transitions += gen
     if not ok:
+        errs = [l for l in lines if l.startswith("Error:")][:6]
         tail = [l for l in lines if not l.startswith('<<"')][-40:]
-        raise Infra("TLC did not complete cleanly on %s (exit %d):\n%s" % (name, p.returncode, "\n".join(tail)))
+        raise Infra("TLC did not complete cleanly on %s (exit %d):\n%s\n...\n%s" % (name, p.returncode, "\n".join(errs), "\n".join(tail)))
     shutil.rmtree(os.path.join(d, "meta"), ignore_errors=True)
     return lines, (gen, dist), time.time() - t0
 
